@@ -250,6 +250,27 @@ def run(ctx):
               "part is overwritten", suf, "suffix pads the part number and never truncates it", key="R17.4:SplitWriter._next_path:suffix-truncates")
     bump = [st for st in walk_no_nested(np_) if isinstance(st, ast.AugAssign) and norm(st.target) == "self.file_count"]
     ctx.check(len(bump) == 1 and suf.lineno < bump[0].lineno, "R17.4", "SplitWriter._next_path:counter", "file_count is not advanced once per part after use", np_, "file_count += 1 after use")
+    # stdout detection decides whether the output is split at all: a target given as scheme://NAME puts NAME in the URL's netloc and a bare
+    # NAME in its path, so a test that does not consult both cannot tell a file target from stdout
+    si = ctx.anchor_func("flow.record.adapter.split.SplitWriter.__init__")
+    from ..core import expand_aliases as _ea, single_assign_aliases as _saa
+
+    sal = _saa(si)
+    sdefs = [st for st in walk_no_nested(si) if isinstance(st, ast.Assign) and any(norm(t) == "self.is_stdout" for t in st.targets)]
+    if len(sdefs) != 1:
+        raise AnalysisError("R17.4: SplitWriter.is_stdout assignment not found")
+    sexpr = _ea(sdefs[0].value, sal)
+    parts_read = set()
+    for n in ast.walk(sexpr):
+        if isinstance(n, ast.Attribute) and isinstance(n.value, ast.Call) and getattr(prog.resolve_expr(si._module, n.value.func), "name", "") in ("urllib.parse.urlparse", "urllib.parse.urlsplit"):
+            parts_read.add(n.attr)
+        if isinstance(n, ast.Subscript) and isinstance(n.value, ast.Call) and getattr(prog.resolve_expr(si._module, n.value.func), "name", "") in ("urllib.parse.urlparse", "urllib.parse.urlsplit") \
+                and isinstance(n.slice, ast.Constant):
+            parts_read.add({1: "netloc", 2: "path"}.get(n.slice.value, str(n.slice.value)))
+    uses_helper = any(isinstance(n, ast.Call) and norm(n.func).endswith("is_stdout") for n in ast.walk(sexpr))
+    ctx.check({"netloc", "path"} <= parts_read or (not parts_read and uses_helper), "R17.4", "SplitWriter.__init__:stdout-detection",
+              f"is_stdout is computed from {sorted(parts_read) or norm(sexpr)[:60]} only: a target like jsonfile://out (name in the netloc) or out.records (name in the path) is mistaken for stdout "
+              "and written unsplit", sdefs[0], "netloc and path of the target URL are both consulted", key="R17.4:SplitWriter:stdout-detection-ignores-url-part")
     # rotation
     rsp = ctx.anchor_func("flow.record.stream.PathTemplateWriter.record_stream_for_path")
     rcfg = CFG(rsp)
